@@ -760,21 +760,21 @@ func c06scenarios(r *core.Run) []c06scn {
 		}
 	}
 	for _, k := range kinds {
-		for rep := 0; rep < r.Pick(4, 40); rep++ {
+		for rep := 0; rep < r.Pick(4, 200); rep++ {
 			add(c06scn{Kind: k, KeyFill: -1, Reader: "read", Conc: "none", PreResume: true})
 			add(c06scn{Kind: k, KeyFill: -1, Reader: "read", Conc: "none", Stall: true})
 			add(c06scn{Kind: k, KeyFill: -1, Reader: "read", Conc: "flood", Sched: int64(rep)})
 		}
 	}
-	for i := 0; i < r.Pick(12, 32); i++ {
+	for i := 0; i < r.Pick(12, 64); i++ {
 		add(c06scn{Kind: "racefill", EvFill: r.Pick(400, 3000), KeyFill: -1, Reader: "read", Conc: "none", Sched: int64(i % 2)})
 	}
 	// the real devTty on a pty under a SIGWINCH storm
-	for i := 0; i < r.Pick(6, 60); i++ {
+	for i := 0; i < r.Pick(6, 200); i++ {
 		add(c06scn{Kind: "pty", KeyFill: -1, Reader: "read", Conc: "resize", Sched: int64(i % 2 * (7000 + i))})
 	}
 	// randomised schedules
-	n := r.Pick(400, 6000)
+	n := r.Pick(400, 60000)
 	for i := 0; i < n; i++ {
 		rg := r.Rand("rand", i)
 		s := c06scn{Kind: kinds[rg.IntN(3)], EvFill: rg.IntN(cap + 1), KeyFill: -1, Reader: []string{"read", "read", "gate", "readerr"}[rg.IntN(4)],
